@@ -21,6 +21,15 @@ theorem C07_int_stable (c : EncCfg) (hs : NumSafe c.d.g = true) (i : Int) :
   obtain ⟨text, h1, h2⟩ := C01_int_roundtrip c hs i
   exact ⟨text, h1, .int i, h2, h1⟩
 
+/-- **C07, finite reals**: the text written is the text read is the text written again — no digit is lost or
+    added by a load/dump cycle -/
+theorem C07_real_stable (c : EncCfg) (hs : RealSafe c.d.g = true) (ch : Nat) (r : Str) (hc : RealHead ch)
+    (h35 : 35 ∉ ch :: r) (hf : floatOk (ch :: r) = true) (hi : int10 (ch :: r) = none) :
+    ∃ text, encodeValue c (.real (ch :: r)) = .ok text ∧
+      ∃ v, decodeSimple c.d text = .ok v ∧ encodeValue c v = .ok text := by
+  obtain ⟨text, h1, h2⟩ := C01_real_roundtrip c hs ch r hc h35 hf hi
+  exact ⟨text, h1, .real (ch :: r), h2, h1⟩
+
 /-- **C07, dates** -/
 theorem C07_date_stable (c : EncCfg) (hg : c.d.g.dateFormats.head? = some fmtYmd) (y m d : Nat)
     (h : ValidDate y m d) :
